@@ -37,6 +37,9 @@ func paramRole(name string) string {
 type specEnv struct {
 	r   *shape.Result
 	src string // the snapshot source parameter (strategies) – roles are field:<Role>(src:<src>)
+	// formula specifications: parameter names denote the input series, locals are plain variables
+	params map[string]bool
+	locals map[string]bool
 }
 
 func (e *specEnv) field(role string) sym.Expr {
@@ -47,7 +50,7 @@ func (e *specEnv) field(role string) sym.Expr {
 func (e *specEnv) object(x ast.Expr) (*shape.Object, bool) {
 	switch v := x.(type) {
 	case *ast.Ident:
-		if e.r.Recv == nil {
+		if e.r == nil || e.r.Recv == nil {
 			return nil, false
 		}
 		o, ok := shape.FieldOf(e.r.Recv, v.Name).(*shape.Object)
@@ -72,6 +75,15 @@ func (e *specEnv) eval(x ast.Expr) (sym.Expr, error) {
 			return n, nil
 		}
 	case *ast.Ident:
+		if e.params[v.Name] {
+			return sym.V("src:" + v.Name), nil
+		}
+		if e.locals[v.Name] || (v.Name == "acc" && e.params != nil) {
+			return sym.V(v.Name), nil
+		}
+		if strings.HasPrefix(v.Name, "calculatePeriods_") {
+			return sym.V("cfg:calculatePeriods()#" + v.Name[len("calculatePeriods_"):]), nil
+		}
 		if roleNames[v.Name] {
 			return e.field(v.Name), nil
 		}
@@ -83,7 +95,7 @@ func (e *specEnv) eval(x ast.Expr) (sym.Expr, error) {
 			return sym.V("src:" + v.Name[4:]), nil
 		}
 		// configuration field of the receiver
-		if e.r.Recv != nil {
+		if e.r != nil && e.r.Recv != nil {
 			if val := shape.FieldOf(e.r.Recv, v.Name); val != nil {
 				if s, ok := shape.NumSym(val); ok {
 					return s, nil
@@ -145,8 +157,23 @@ func (e *specEnv) eval(x ast.Expr) (sym.Expr, error) {
 	case *ast.CallExpr:
 		if id, ok := v.Fun.(*ast.Ident); ok {
 			var args []sym.Expr
+			if id.Name == "op" && len(v.Args) >= 1 {
+				// op("operator name", args...): a stateful closure or hand-written stage of the root, by name
+				bl, ok := v.Args[0].(*ast.BasicLit)
+				if !ok {
+					return nil, fmt.Errorf("op needs a literal operator name")
+				}
+				for _, a := range v.Args[1:] {
+					t, err := e.eval(a)
+					if err != nil {
+						return nil, err
+					}
+					args = append(args, t)
+				}
+				return sym.Call{Fn: strings.Trim(bl.Value, "\""), Args: args}, nil
+			}
 			switch id.Name {
-			case "prev", "at", "max", "min", "abs", "sqrt", "pow", "sign", "ite":
+			case "prev", "at", "max", "min", "abs", "sqrt", "pow", "sign", "ite", "pos", "neg", "since", "scan", "RoundDigit":
 				for _, a := range v.Args {
 					t, err := e.eval(a)
 					if err != nil {
@@ -164,7 +191,24 @@ func (e *specEnv) eval(x ast.Expr) (sym.Expr, error) {
 				if len(args) == 2 {
 					return shape.Delay(args[0], args[1]), nil
 				}
-			case "max", "min", "abs", "sqrt", "pow", "sign":
+			case "sign":
+				if len(args) == 1 && e.params != nil {
+					zero := sym.N(0)
+					return sym.Ite{Cond: sym.Cmp{Op: ">", L: args[0], R: zero}, A: sym.N(1),
+						B: sym.Ite{Cond: sym.Cmp{Op: "<", L: args[0], R: zero}, A: sym.N(-1), B: zero}}, nil
+				}
+				return sym.Call{Fn: id.Name, Args: args}, nil
+			case "pos":
+				if len(args) == 1 {
+					return sym.Ite{Cond: sym.Cmp{Op: ">", L: args[0], R: sym.N(0)}, A: args[0], B: sym.N(0)}, nil
+				}
+			case "neg":
+				if len(args) == 1 {
+					return sym.Ite{Cond: sym.Cmp{Op: "<", L: args[0], R: sym.N(0)}, A: args[0], B: sym.N(0)}, nil
+				}
+			case "since":
+				return sym.Call{Fn: "closure:helper.Since#1", Args: args}, nil
+			case "max", "min", "abs", "sqrt", "pow", "scan", "RoundDigit":
 				return sym.Call{Fn: id.Name, Args: args}, nil
 			case "ite":
 				if len(args) == 3 {
